@@ -28,6 +28,7 @@ func runC18(c *Ctx) {
 	c.rule("watch-forwarding", "the file source is built by fileSource(path, decoder, params.WatchConfigFile) which picks the watching source exactly when asked; blank.Done is deferred exactly when file watching is off; SetSource is called on the Blank that was handed to Config", 4)
 	c.rule("format-table", "DecoderFromExtensionWithParams maps .yaml/.yml, .json, .toml, .cue (case-insensitively) to their decoders and anything else to nil; a nil decoder is an error", 5)
 	c.rule("no-early-verify", "dials.Config itself does not invoke Verify while DelayInitialVerification is set (so the file-less first stack that ez builds is never verified); shared with C04/C09", 1)
+	c.rule("visited-flags-written", "flags are the highest layer: the flag sources' visit callback never drops a flag that was given on the command line (shared with C12)", 2)
 	c.rule("set-as-list", "the set-to-slice mangler is appended to the file decoder's chain exactly when DisableAutoSetToSlice is false", 1)
 
 	w := c.W
@@ -322,6 +323,7 @@ func runC18(c *Ctx) {
 	if k := loadCore(c); k.ok {
 		c04InitialVerifyGuardOnly(c, k, "no-early-verify")
 	}
+	c12VisitClosures(c)
 
 	// ---- format-table -------------------------------------------------------------------------------------------
 	c18FormatTable(c)
